@@ -6,6 +6,9 @@ import F1Verif.Drive.Staged
 import F1Verif.Drive.Jitter
 import F1Verif.Drive.Labels
 import F1Verif.Drive.Iteration
+import F1Verif.Drive.Parse
+import F1Verif.Drive.Plan
+import F1Verif.Drive.Run
 /-!
 Line-protocol driver (`f1model`). One case per line on stdin:
 
@@ -20,6 +23,16 @@ def dispatch (op : String) : Option (List String → List String → Option (Str
   match op with
   | "verdict" => some verdict
   | "dist" => some dist
+  | "run" => some runOp
+  | "plan" => some plan
+  | "calc.constant" => some (calcOp "constant")
+  | "calc.ramp" => some (calcOp "ramp")
+  | "calc.staged" => some (calcOp "staged")
+  | "calc.gaussian" => some (calcOp "gaussian")
+  | "atoi" => some atoiOp
+  | "parsedur" => some parsedurOp
+  | "parserate" => some parserateOp
+  | "parsestages" => some parsestagesOp
   | "iter.seq" => some iterSeq
   | "iter.stress" => some idsSpec
   | "pool.ids" => some idsSpec
